@@ -564,6 +564,13 @@ type syncWorld struct {
 	fifo     bool
 }
 
+// wasReceived: did `to` get a message of `from` on the topic? (the deliverer may still be running: under the lock)
+func (w *syncWorld) wasReceived(to, from uint16) bool {
+	w.mu.Lock()
+	defer w.mu.Unlock()
+	return w.received[[2]uint16{to, from}]
+}
+
 func (w *syncWorld) enqueue(from, to uint16, msg []byte) {
 	w.mu.Lock()
 	k := [2]uint16{from, to}
@@ -734,12 +741,15 @@ func syncMonitors(w *syncWorld, callers []uint16, expected int, honest map[uint1
 			} else {
 				if !inCfg[k] {
 					bad = fmt.Sprintf("contains %d, which is not configured", k)
-				} else if !w.received[[2]uint16{id, k}] {
+				} else if !w.wasReceived(id, k) {
 					bad = fmt.Sprintf("contains %d, from which no message on the topic was received", k)
 				} else if honest[k] {
 					ok := false
 					if other := w.nodes[k]; other != nil {
-						for _, b := range other.bcasts {
+						w.mu.Lock()
+						bc := append([]string(nil), other.bcasts...)
+						w.mu.Unlock()
+						for _, b := range bc {
 							ok = ok || b == out.U16s(l)
 						}
 					}
@@ -869,6 +879,7 @@ func syncNet(r *prng.R, s *out.Sink, tier string) {
 
 // scripted corrupted members
 type syncAdversary struct {
+	mu       sync.Mutex // observe is called from the members' own goroutines
 	r        *prng.R
 	bad      []uint16
 	good     []uint16
@@ -911,6 +922,8 @@ func (a *syncAdversary) observe(w *syncWorld, from uint16, to int, msg []byte) {
 	if err != nil {
 		return
 	}
+	a.mu.Lock()
+	defer a.mu.Unlock()
 	w.mu.Lock()
 	a.seen = append(a.seen, msg)
 	liar := a.bad[a.r.Intn(len(a.bad))]
